@@ -9,6 +9,7 @@ import CallbagModel.Inv.FromIter
 import CallbagModel.Inv.Fuse
 import CallbagModel.Inv.Merge
 import CallbagModel.Inv.MonSound
+import CallbagModel.Inv.PlugSafe
 import CallbagModel.Inv.Readable
 import CallbagModel.Inv.Relay
 import CallbagModel.Inv.Share
@@ -79,6 +80,10 @@ theorem C02_closed_pipeline {S1 L1 S2 L2 α β γ : Type} {Msrc : Machine S1 L1 
     ∀ s, SReach (compose (compose Msrc Mmid) (ForEach.machine γ)) s → SafeFor 2 s :=
   fun s hs => safeFor_of_basicSafe _ s hs (closed_pipeline_safe hsrc hmid s hs) 2 (by decide)
 
+theorem C02_plugged {S1 L1 S2 L2 α β γ : Type} {M1 : Machine S1 L1 α β} {M2 : Machine S2 L2 β γ} (H : PlugSafe.HypP M1 M2) (j : Nat) :
+    ∀ s, SReach (plug j M1 M2) s → SafeFor 2 s :=
+  fun s hs => safeFor_of_basicSafe _ s hs (PlugSafe.plug_basicSafe H j s hs) 2 (by decide)
+
 
 /-! ## What the monitor verdict means, in terms of the trace alone
 
@@ -143,6 +148,10 @@ theorem C02_pipeline_readable {S1 L1 S2 L2 α β γ : Type} {M1 : Machine S1 L1 
 theorem C02_closed_pipeline_readable {S1 L1 S2 L2 α β γ : Type} {Msrc : Machine S1 L1 α β} {Mmid : Machine S2 L2 β γ} (hsrc : UpSide Msrc) (hmid : Pipeable Mmid) :
     ∀ s, SReach (compose (compose Msrc Mmid) (ForEach.machine γ)) s → ∀ k, TerminalFinal k s.tr :=
   fun s hs k => (readable_of_noViols hs (closed_pipeline_safe hsrc hmid s hs).1 k).2.1
+
+theorem C02_plugged_readable {S1 L1 S2 L2 α β γ : Type} {M1 : Machine S1 L1 α β} {M2 : Machine S2 L2 β γ} (H : PlugSafe.HypP M1 M2) (j : Nat) :
+    ∀ s, SReach (plug j M1 M2) s → ∀ k, TerminalFinal k s.tr :=
+  fun s hs k => (readable_of_noViols hs (PlugSafe.plug_basicSafe H j s hs).1 k).2.1
 
 /-- the oracle that judges traces recorded from the real crate IS the monitor of these theorems: on every model execution the
 machine-free monitor `monRun` (Mon.lean), folded over the boundary trace alone, computes exactly the ghost carried by the configuration
